@@ -146,8 +146,15 @@ def make_block(ctx, family):
     post = [("_HEADER", b"Content-Type: application/octet-stream"), ("BUILD", "id"), ("PARAMETER", b"id"), ("BUILD", "output"), ("PRINT", True)]
     recover = {0: [("print", True), ("base64", True), ("prepend", 3)],
                1: [("print", True), ("append", 0), ("mask", True)],
-               2: [("print", True)]}[family]
-    return CB.http_config(get=get, post=post, recover=recover, ua=SymBytes(list(b"Mozilla/5.0 ") + ua.cells))
+               2: [("print", True)], 3: [("print", True)]}[family]
+    cells = CB.http_config(get=get, post=post, recover=recover, ua=SymBytes(list(b"Mozilla/5.0 ") + ua.cells))
+    if family == 3:
+        # a block in which setting indices occur twice (the library accepts it; the later record wins): one duplicate pair early in
+        # the block, one at its end
+        early = CB.rec(5, CB.SHORT, CB.u16be(33)) + CB.rec(10, CB.PTR, list(b"/first.php") + [0] * 54)
+        late = CB.rec(2, CB.SHORT, CB.u16be(8443))
+        cells = cells[:8] + early + cells[8:-2] + late + [0, 0]
+    return cells
 
 
 def h_history(names, family):
@@ -197,6 +204,9 @@ def instances(tier):
     for a, b in itertools.product(names, repeat=2):
         fam = (hash((a, b)) % 3) if q else 0
         out.append(Instance("pair %s ; %s" % (a, b), h_history((a, b), fam), dict(kind="history", ops=[a, b], family=fam)))
+    dup_ops = ["settings", "settings_by_index", "raw_settings", "raw_settings_by_index", "C2Http(aes+hmac)", "profile"]
+    for a, b in itertools.product(dup_ops if q else names, repeat=2):
+        out.append(Instance("pair %s ; %s duplicate-index block" % (a, b), h_history((a, b), 3), dict(kind="history", ops=[a, b], family=3)))
     if not q:
         for fam in (1, 2):
             for a, b in itertools.product(names, repeat=2):
